@@ -97,8 +97,17 @@ def run_e3(pid, step, tier, seed):
         out['wall'] = time.time() - t0
         return out
     args = [exe, step['cmd'], '--tier', tier, '--seed', str(seed)] + step.get('args', [])
+    env = dict(ENV, RAYON_NUM_THREADS=os.environ.get('RAYON_NUM_THREADS', '16'))
+    if step.get('needs_seq_bin'):
+        # the same harness built with --no-default-features (lopdf without rayon): the sequential reference
+        seq, err = harness_bin(False)
+        if not seq:
+            out['inconclusive'].append('sequential (no-default-features) harness build failed: ' + err[-1500:])
+            out['wall'] = time.time() - t0
+            return out
+        env['LOPDF_VERIF_SEQ_BIN'] = seq
     try:
-        p = subprocess.run(args, capture_output=True, text=True, timeout=step.get('timeout', 1500), env=dict(ENV, RAYON_NUM_THREADS=os.environ.get('RAYON_NUM_THREADS', '16')))
+        p = subprocess.run(args, capture_output=True, text=True, timeout=step.get('timeout', 1500), env=env)
     except subprocess.TimeoutExpired:
         out['inconclusive'].append('bounded unit timed out')
         out['wall'] = time.time() - t0
